@@ -13,10 +13,14 @@ THEOREMS = [
     (NS + "C12_keepalive_emits_total", "full"),
     (NS + "C12_keepalive_cadence", "full"),
     (NS + "C12_keepalive_cadence_max", "full"),
+    (NS + "xstep_typed", "full"),
+    (NS + "C12_keepalive_emits_typed", "full"),
+    (NS + "C12_keepalive_cadence_typed", "full"),
     (NS + "C12_no_false_timeout", "full"),
     (NS + "C12_no_false_drop", "full"),
     (NS + "C12_never_timed_out", "full"),
     (NS + "C12_never_dropped", "full"),
+    (NS + "C12_idle_pair_stays_up", "full"),
     (NS + "C12_dead_peer_detected_server", "full"),
     (NS + "C12_dead_peer_detected_client", "full"),
     (NS + "C12_connect_timeout_step", "full"),
@@ -27,24 +31,30 @@ THEOREMS = [
     (NS + "C12_connect_state", "full"),
     (NS + "C12_server_settings_effective", "full"),
     (NS + "C12_server_last_value", "full"),
+    (NS + "C12_update_drains", "full"),
+    (NS + "C12_update_is_history", "full"),
 ]
 ASSUMPTIONS = [
     "time is integer ticks of 1/1024 s; every interval of a differential case is a whole number of ticks so the float comparisons of "
     "the code are exact; the library's non-dyadic defaults (.1 s, 1/60 s) are parameters of the model's constructors and appear in the "
     "comparison only rounded to ticks, where they are merely copied",
-    "BuildOk (hypothesis of the cadence theorems): the connection is CONNECTED at each build call, every queued message carries a real "
-    "packet type (_send_type is only called with one; the model's queue could hold UNKNOWN) and packing does not raise (C09_build_total)",
+    "hypotheses of the cadence theorem (C12_keepalive_cadence_typed): the build calls come at most tau apart, the connection is CONNECTED "
+    "at each of them and packing does not raise (C09_build_total); that every message held for sending carries a real packet type is an "
+    "invariant (Typed: true of a fresh connection, kept by every operation - xstep_typed), not an assumption",
     "both send times agree at the start of a history (fresh connection: both -1 s; every emission sets both)",
     "'unanswered' connect = no server hello that parses and verifies is processed (Role.KeepsHc; proved for the client role under "
     "Hs.NoValidHello and for the base role); 'silent peer' = no datagram is accepted (rejected garbage may still arrive)",
-    "the composition idle pair => stays up (keepAlive + tau + delay < timeout) is the conjunction of C12_keepalive_cadence for the sender "
-    "and C12_never_timed_out / C12_never_dropped for the receiver with the delivery delay as the link between emission and acceptance "
-    "times; that arithmetic link (emitted at e => accepted at e + delay <= ...) is checked by the world monitor on every run, it is not "
-    "a single Lean theorem about a two-endpoint network model",
+    "C12_idle_pair_stays_up composes the sender's cadence with the receiver's liveness clock over a link given as a hypothesis: every "
+    "emission is delivered in order after a delay of at most delta (transit + wait for the receiver's next tick) and the receiver accepts "
+    "exactly these datagrams (that a genuine fresh sealed datagram is accepted is C01/C04's subject; the world monitor counts datagrams a "
+    "peer rejected on the perfect link: the number is in the evidence notes); there is no separate Net model with loss/reordering here",
     "the server loop is modelled only where it reads the configuration (new connection, the two sweeps); thread scheduling and the real "
     "tick length are outside the model - the world monitor drives the real loop under a virtual clock",
-    "UdpClient.update reads one datagram per call: with a peer that emits faster than the client ticks the socket buffer grows without "
-    "bound (the property does not speak about it; liveness is unaffected because last_recv_time is the processing time)",
+    "UdpClient.update is modelled whole (clientUpdateFull: conn.update, drain loop as repaired by 3918c48, send half) and proved to be a "
+    "history of XOps at one clock value; in the differential its receive half only sees datagrams anybody can build (CRC form, garbage, "
+    "junk hellos) because the model driver seals with a toy AEAD - sealed traffic through update() is covered by the world monitor (real "
+    "code only) and by the Conn-layer recv ops; the liveness clock is the time a datagram is PROCESSED, so the 5 s / connection_timeout "
+    "deadlines count from the update / loop iteration that read the peer's last datagram",
 ]
 RULE = ("(a) Conn layer, native model driver: pairs of real connection objects (client side a ClientServerConnection) over a perfect link with "
         "delay, keep-alive 16..2048 ticks, send interval 8..32, tick spacings 8..110 per side, time-outs 256..20480 with keep-alive + spacing "
@@ -56,7 +66,8 @@ RULE = ("(a) Conn layer, native model driver: pairs of real connection objects (
         "repeated setters, setters after connect) on the real UdpClient with a fake socket; ServerContext setter sequences, the connection "
         "object the REAL server loop creates for a real client hello, and the sweep decisions of one real loop iteration for connections "
         "placed in either pool with last_recv at the boundary; ServerClientConnection.update / UdpClient.update / timedout on states given "
-        "field by field at the boundaries of send interval, keep-alive and message time-out. (c) world monitor: real UdpClient (fake socket, "
+        "field by field at the boundaries of send interval, keep-alive and message time-out; the whole UdpClient.update with 0..9 forged / garbage "
+        "/ junk-hello datagrams waiting on the socket (results per datagram, exception class, datagrams left unread). (c) world monitor: real UdpClient (fake socket, "
         "select patched) against the real UdpServerThread loop under one virtual clock. "
         "non-trivial = the case contains a keep-alive emission and a detection (DROPPED / time-out / connect time-out), or a setter after connect, "
         "or a boundary probe")
@@ -142,6 +153,8 @@ def gen_idle_cut(real, rng, cid, cfg, idle_ticks, cut_mode):
         inflight = []                         # (due, dst, src, k)
         t_cut = t0 + idle_ticks + rng.randint(0, max(ka["a"], ka["b"]))
         obs.cut = t_cut
+        # whatever the code does, the case ends: both detections are due long before this instant
+        t_hard = t_cut + 2 * (max(cfg["ct"], 5120) + 2 * max(cfg["tau_a"], cfg["tau_b"])) + 300
         in_service = {"a": True, "b": True}
         after = {"a": 0, "b": 0}              # ticks after detection
         seed = rng.randint(1, 10 ** 6)
@@ -154,7 +167,7 @@ def gen_idle_cut(real, rng, cid, cfg, idle_ticks, cut_mode):
             conn = ca if e == "a" else cb
             peer = "b" if e == "a" else "a"
             cut_now = t >= t_cut
-            if t_end is not None and t > t_end:
+            if (t_end is not None and t > t_end) or t > t_hard:
                 break
             if e == "a":
                 lr0, st0 = real.ticks(ca.last_recv_time), ca.status.value
@@ -662,22 +675,49 @@ class RealB:
                     except Exception as e:
                         s = "err:" + type(e).__name__
                     out.append(s + " ev=" + (",".join(conn._v_events) or "-"))
-                elif op == "utick":
+                elif op == "uupd":
+                    # the whole of UdpClient.update() with datagrams waiting on the (fake) socket
                     conn = eps[w[1]]
                     real.now = int(kv["t"])
                     del conn._v_events[:]
                     shell = self.CL.UdpClient()
                     shell.conn, shell.sock, shell.addr = conn, FakeSock(), conn.addr
+                    shell.sock.inbox = [(bytes.fromhex(x), conn.addr) for x in kv["rx"].split(",")] if kv["rx"] != "-" else []
+                    mark = {"hs": False}
+                    o_recv, o_hello = conn._recv_datagram, getattr(conn, "_recvServerHello", None)
+
+                    def recv(hdr, d, _o=o_recv, _c=conn):
+                        try:
+                            r = _o(hdr, d)
+                        except Exception:
+                            _c._v_events.append("E")
+                            raise
+                        _c._v_events.append("T" if r else "F")
+                        return r
+
+                    def hello(data, _o=o_hello):
+                        try:
+                            return _o(data)
+                        except Exception:
+                            mark["hs"] = True
+                            raise
+                    conn._recv_datagram = recv
+                    if o_hello is not None:
+                        conn._recvServerHello = hello
+                    outs = None
                     try:
                         shell.update()
-                        if shell.sock.sent:
-                            h = C.PacketHeader.from_bytes(True, shell.sock.sent[0][0])
-                            s = "pkt ty=%d seq=%d count=%d" % (h.pkt_type.value, int(h.seq), h.count)
-                        else:
-                            s = "none"
+                        outs = list(conn._v_events)
+                        for (d, _a) in shell.sock.sent:
+                            h = C.PacketHeader.from_bytes(True, d)
+                            outs.append("pkt ty=%d seq=%d count=%d" % (h.pkt_type.value, int(h.seq), h.count))
                     except Exception as e:
-                        s = "err:" + type(e).__name__
-                    out.append("st=%d %s ev=%s" % (conn.status.value, s, ",".join(conn._v_events) or "-"))
+                        outs = list(conn._v_events) + ["err:" + ("hs" if mark["hs"] else type(e).__name__)]
+                    finally:
+                        conn._recv_datagram = o_recv
+                        if o_hello is not None:
+                            conn._recvServerHello = o_hello
+                    out.append("st=%d unread=%d %s" % (conn.status.value, len(shell.sock.inbox), ",".join(outs) or "-"))
                 elif op == "cupd":
                     conn = eps[w[1]]
                     real.now = int(kv["t"])
@@ -803,7 +843,7 @@ def gen_state_cases(rng, n):
         lines = ["case s%d" % i, "new e %s" % role,
                  "set e key=%s status=%d si=%d ka=%d ot=%d lr=%d ls=%d lk=%d" % (KEY.hex(), rng.choice([2, 2, 2, 2, 1, 4, 3]), si, ka, ot, t0, t0, t0)]
         t = t0
-        upd = "supd" if role == "scc" else "utick"
+        upd = "supd" if role == "scc" else "uupd"
         last_emit = t0
         for _ in range(rng.randint(3, 25)):
             r = rng.random()
@@ -819,7 +859,7 @@ def gen_state_cases(rng, n):
             if k < 0.1:
                 lines.append("send e len=%d retry=%d" % (rng.choice([0, 3, 50]), rng.choice([0, 1, -1])))
             if k < 0.75:
-                lines.append("%s e t=%d" % (upd, t))
+                lines.append("%s e t=%d%s" % (upd, t, " rx=-" if upd == "uupd" else ""))
             elif k < 0.85:
                 lines.append("build e t=%d" % t)
             elif k < 0.95:
@@ -838,7 +878,50 @@ def gen_state_cases(rng, n):
             tt = rng.choice([256, 1000, 2048])
             lines.append("set e status=1 hs=%d tt=%d ccb=%d lr=-1024" % (th, tt, rng.randint(0, 1)))
             for dt in (tt - 1, tt, tt + 1, tt + 2, tt + 500):
-                lines.append("%s e t=%d" % (rng.choice(["cupd", "utick"]), th + dt))
+                lines.append(rng.choice(["cupd e t=%d", "uupd e t=%d rx=-"]) % (th + dt))
+            lines.append("cdump e")
+        lines.append("end")
+        cases.append(lines)
+    return cases
+
+
+def gen_rx_cases(real, rng, n):
+    """UdpClient.update() with several datagrams waiting: everything is read, in order, at this call; an exception stops the reading"""
+    cases = []
+    for i in range(n):
+        keyed = rng.random() < 0.3
+        t0 = connlib.BASE_T + rng.randint(0, 4000)
+        lines = ["case d%d" % i, "new e csc"]
+        if keyed:
+            lines.append("set e key=%s status=2 si=16 ka=%d lr=%d ls=%d lk=%d" % (KEY.hex(), rng.choice([16, 96, 512]), t0, t0, t0))
+        else:
+            lines.append("set e status=1 hs=%d tt=%d ccb=%d si=16" % (t0, rng.choice([512, 2048]), rng.randint(0, 1)))
+        t = t0
+        seq = 0
+        for _ in range(rng.randint(1, 5)):
+            t += rng.choice([5, 17, 60, 110, 600, 2500, 5200])
+            rx = []
+            for _k in range(rng.choice([0, 1, 2, 3, 5, 9])):
+                r = rng.random()
+                seq += 1
+                if r < 0.5:
+                    # CRC-valid datagram anybody can build; type 2 = the hello an unkeyed client expects (junk inside: the handler raises)
+                    ty = rng.choice([2, 4, 4, 5, 6, 3, 1]) if not keyed else rng.choice([4, 6, 5])
+                    if ty == 2 and rng.random() < 0.6:
+                        ty = 4
+                    body = connlib.lcg_bytes(rng.choice([0, 3, 30]), seq)
+                    d = connlib.forge_plain(real, rng, False, ty, [(seq, ty, body)], seq, 0, 0, t // 1024)
+                elif r < 0.65:
+                    d = bytes(rng.getrandbits(8) for _ in range(rng.choice([0, 3, 19, 20, 24, 40])))
+                elif r < 0.8:
+                    d = b"FSOC" + bytes(rng.getrandbits(8) for _ in range(rng.choice([16, 20, 36])))
+                    d = d[:12] + bytes([rng.choice([4, 6, 9, 200])]) + d[13:]
+                elif r < 0.9:
+                    d = b"FSOS" + bytes(20)
+                else:
+                    d = connlib.forge_plain(real, rng, False, 4, [], seq, 0, 0, t // 1024)
+                rx.append(d.hex() or "00")
+            lines.append("uupd e t=%d rx=%s" % (t, ",".join(rx) if rx else "-"))
             lines.append("cdump e")
         lines.append("end")
         cases.append(lines)
@@ -847,10 +930,412 @@ def gen_state_cases(rng, n):
 
 def nontrivial_b(case, outs):
     j = " ".join(case)
+    if case[0].split()[1].startswith("d"):
+        return any(("F," in o or "T," in o or ",F" in o) for o in outs)
     if "ucall connect" in j:
         i = [k for k, l in enumerate(case) if l.startswith("ucall connect")][0]
         return any(l.startswith("ucall set") for l in case[i:])
     return "rm=1" in " ".join(outs) or "pkt ty=4" in " ".join(outs) or "st=5" in " ".join(outs) or "ccb:0" in " ".join(outs)
+
+
+# ============================================================================================ (c) world monitor
+
+CLIENT_ADDR = ("10.9.9.9", 4242)
+SERVER_ADDR = ("10.8.8.8", 1474)
+
+
+class World:
+    """the REAL UdpClient (fake socket, select patched) against the REAL UdpServerThread.run loop, one thread, one virtual clock.
+    The loop is entered once; the world advances where the loop sends (end of an iteration) and where it would block."""
+
+    def __init__(self, rb, rng, sc):
+        self.rb, self.real, self.rng, self.sc = rb, rb.real, rng, sc
+        C = self.real.C
+        self.C = C
+        self.trace = []                 # human-readable replay of what happened
+        self.problems = []              # (kind, what)
+        self.net = {"c>s": [], "s>c": []}
+        self.sent = {"c": [], "s": []}  # emission times per side
+        self.client_ticks = []          # (t, status value, conn exists)
+        self.sweeps = []                # server iteration times
+        self.ccb = []                   # (t, value)
+        self.finished = False
+        self.srv_events = []            # (t, "connect"/"disconnect")
+        self.ka_changes = []            # (t, new keep-alive) on the client
+        self.expect = {}                # last value given to each client setter
+        self.last_arrival = 0           # arrival time of the last datagram that reached the client's socket
+        self.backlog = []               # datagrams left unread on the client's socket after each update
+        w = self
+
+        ctxt = rb.make_ctxt()
+        self.ctxt = ctxt
+        h = ctxt.handler
+        h.connect = lambda client: w.srv_events.append((w.real.now, "connect", client)) if not w.finished else None
+        h.disconnect = lambda client: w.srv_events.append((w.real.now, "disconnect", client)) if not w.finished else None
+        for name, fn, key in (("setKeepAliveInterval", ctxt.setKeepAliveInterval, "ka_s"), ("setConnectionTimeout", ctxt.setConnectionTimeout, "ct"),
+                              ("setTempConnectionTimeout", ctxt.setTempConnectionTimeout, "tt_s"), ("setMessageTimeout", ctxt.setMessageTimeout, "ot_s"),
+                              ("setInterval", ctxt.setInterval, "tau_s")):
+            try:
+                fn(sc[key] / TICK)
+            except Exception as e:
+                self.problems.append(("setter-raised", "ServerContext.%s raised %s" % (name, type(e).__name__)))
+        self.ssock = FakeSock()
+        self.ssock.sendto = lambda d, addr: w.wire("s>c", d)
+        self.thread = rb.SV.UdpServerThread(self.ssock, ctxt)
+        self.thread.cv_queue = CvStub(self.thread, self.blocked)
+        orig_send = self.thread.send
+
+        def send(seq):
+            orig_send(seq)                   # the real encoder + the (fake) socket
+            w.sweeps.append(w.real.now)
+            w.advance()
+        self.thread.send = send
+
+        self.client = rb.CL.UdpClient(ctxt.server_root_key.getPublicKey() if sc.get("pin", True) else None)
+        self.csock = FakeSock()
+        self.csock.sendto = lambda d, addr: w.wire("c>s", d)
+        self.client._make_socket = lambda addr: w.csock
+        self.next_c = None
+        self.calls = list(sc["calls"])   # (when, name, value): when = "pre" | ticks after connect
+        self.t_connect = None
+
+    # ------------------------------------------------------------------ network
+    def up(self, direction, t):
+        for (d, a, b) in self.sc.get("cuts", []):
+            if d in (direction, "both") and a <= t < b:
+                return False
+        return True
+
+    def wire(self, direction, d):
+        t = self.real.now
+        self.sent[direction[0]].append(t)
+        if self.up(direction, t - self.t0):
+            self.net[direction].append((t + self.sc["delta"], d))
+
+    # ------------------------------------------------------------------ client side
+    def setter(self, name, v):
+        fn = {"ka": self.client.setKeepAliveInterval, "tt": self.client.setConnectionTimeout, "ot": self.client.setMessageTimeout}[name]
+        self.trace.append("t=%d client.set %s=%d" % (self.real.now, name, v))
+        try:
+            fn(v / TICK)
+        except Exception as e:
+            self.problems.append(("setter-raised", "UdpClient setter %s(%d ticks) %s connect raised %s" %
+                                  (name, v, "after" if self.client.conn else "before", type(e).__name__)))
+            return
+        self.expect[name] = v
+        if name == "ka" and self.client.conn is not None:
+            self.ka_changes.append((self.real.now, v))
+        conn = self.client.conn
+        if conn is not None:
+            got = {"ka": conn.send_keep_alive_interval, "tt": conn.temp_connection_timeout, "ot": conn.outgoing_timeout}[name]
+            if got != v / TICK:
+                self.problems.append(("setting-not-effective", "after set %s=%d on a connected client the connection has %r s" % (name, v, got)))
+
+    def client_tick(self, t):
+        self.real.now = t
+        for call in [c for c in self.calls if c[0] != "pre" and self.t_connect is not None and t >= self.t_connect + c[0]]:
+            self.calls.remove(call)
+            self.setter(call[1], call[2])
+        keep = []
+        for (due, d) in self.net["s>c"]:
+            if due <= t:
+                self.csock.inbox.append((d, SERVER_ADDR))
+                self.last_arrival = max(self.last_arrival, due)
+            else:
+                keep.append((due, d))
+        self.net["s>c"] = keep
+        try:
+            self.client.update()
+        except Exception as e:
+            self.problems.append(("client-update-raised", "UdpClient.update raised %s at %d" % (type(e).__name__, t)))
+        conn = self.client.conn
+        self.client_ticks.append((t, conn.status.value if conn else 0, self.rb.r(conn.last_recv_time) if conn else 0))
+        self.backlog.append(len(self.csock.inbox))
+
+    def connect(self, t):
+        self.real.now = t
+        for call in [c for c in self.calls if c[0] == "pre"]:
+            self.calls.remove(call)
+            self.setter(call[1], call[2])
+        cb = None
+        if self.sc["ccb"]:
+            cb = lambda ok: self.ccb.append((self.real.now, bool(ok)))
+        self.trace.append("t=%d client.connect callback=%s" % (t, bool(cb)))
+        try:
+            self.client.connect(SERVER_ADDR, cb) if cb else self.client.connect(SERVER_ADDR)
+        except Exception as e:
+            self.problems.append(("connect-raised", "UdpClient.connect raised %s" % type(e).__name__))
+            return
+        self.t_connect = t
+        conn = self.client.conn
+        if self.sc.get("si_c"):
+            conn.send_interval = self.sc["si_c"] / TICK
+        for name, attr in (("ka", "send_keep_alive_interval"), ("tt", "temp_connection_timeout"), ("ot", "outgoing_timeout")):
+            if name in self.expect and getattr(conn, attr) != self.expect[name] / TICK:
+                self.problems.append(("setting-not-effective", "%s=%d set before connect; the connection has %r s" %
+                                      (name, self.expect[name], getattr(conn, attr))))
+
+    # ------------------------------------------------------------------ time
+    def advance(self):
+        """from the current server iteration to the next one"""
+        now = self.real.now
+        nxt = now + (self.sc["tau_s"] if self.rng.random() < 0.8 else self.rng.randint(max(1, self.sc["tau_s"] // 2), self.sc["tau_s"]))
+        while self.next_c is not None and self.next_c <= nxt:
+            t = self.next_c
+            if self.t_connect is None:
+                self.connect(t)
+            self.client_tick(t)
+            self.next_c = t + (self.sc["tau_c"] if self.rng.random() < 0.8 else self.rng.randint(max(1, self.sc["tau_c"] // 2), self.sc["tau_c"]))
+        keep = []
+        for (due, d) in self.net["c>s"]:
+            if due <= nxt:
+                try:
+                    hdr = self.C.PacketHeader.from_bytes(True, d)
+                    self.thread.queue.append((CLIENT_ADDR, hdr, d))
+                except Exception:
+                    pass
+            else:
+                keep.append((due, d))
+        self.net["c>s"] = keep
+        self.real.now = nxt
+        if nxt - self.t0 >= self.sc["duration"]:
+            self.finished = True
+            self.ctxt._active = False
+
+    def blocked(self):
+        # the loop has neither connections nor datagrams and would sleep on its condition variable
+        n = 0
+        while not self.finished and not self.thread.queue:
+            self.advance()
+            n += 1
+            if n > 10 ** 6:
+                raise RuntimeError("world stuck")
+
+    def run(self):
+        self.t0 = connlib.BASE_T + self.rng.randint(0, 5000)
+        self.real.now = self.t0
+        self.next_c = self.t0 + self.rng.randint(1, self.sc["tau_c"])
+        self.ctxt._active = True
+        with Alarm(60):
+            self.thread.run()
+        self.finished = True
+
+
+def draw_world(rng, kind):
+    ka_c = rng.choice([16, 17, 32, 33, 64, 96, 102, 200, 512, 1024, 2048])
+    ka_s = rng.choice([16, 17, 32, 33, 64, 96, 102, 200, 512, 1024, 2048])
+    tau_c, tau_s = rng.randint(8, 110), rng.randint(8, 110)
+    delta = rng.choice([1, 1, 5, 20, 60])
+    need = max(ka_c, ka_s) + tau_c + tau_s + delta + 40
+    ct = rng.choice([x for x in (256, 300, 512, 1000, 1024, 2048, 3000, 5120, 8000, 20480) if x > need])
+    sc = {"kind": kind, "ka_s": ka_s, "ct": ct, "tt_s": rng.choice([256, 512, 1000, 2048]), "ot_s": rng.choice([512, 1024]),
+          "tau_c": tau_c, "tau_s": tau_s, "delta": delta, "ccb": rng.randint(0, 1), "pin": rng.random() < 0.8,
+          "si_c": rng.choice([None, 16, 16, 8, 32])}
+    tt_c = rng.choice([256, 300, 512, 1000, 2048, 3000, 5120, 8000])
+    ot_c = rng.choice([512, 1024, 2048])
+    # every setter is called before connect, after connect, both, or not at all (the keep-alive always: the default is not a tick value)
+    calls = []
+    final = {}
+    for name, v in (("ka", ka_c), ("tt", tt_c), ("ot", ot_c)):
+        mode = rng.choice(["pre", "post", "both", "pre"]) if name != "ot" else rng.choice(["pre", "post", "both", "none"])
+        other = rng.choice([16, 96, 256, 1000, 2048])
+        if mode == "pre":
+            calls.append(("pre", name, v))
+        elif mode == "post":
+            calls.append((rng.choice([0, 0, 50, 300]) if name != "tt" else 0, name, v))
+            if name == "ka":
+                calls.append(("pre", name, rng.choice([16, 96])))    # something tick-valued before
+        elif mode == "both":
+            calls.append(("pre", name, other))
+            calls.append((rng.choice([0, 0, 50, 300]) if name != "tt" else 0, name, v))
+        if mode != "none":
+            final[name] = v
+    rng.shuffle(calls)
+    sc["calls"] = calls
+    # the property's side condition keep-alive < time-out holds for EVERY keep-alive value in force at some time
+    ka_max = max([ka_s] + [c[2] for c in calls if c[1] == "ka"])
+    need = ka_max + tau_c + tau_s + delta + 40
+    if ct <= need:
+        ct = sc["ct"] = rng.choice([x for x in (1000, 1024, 2048, 3000, 5120, 8000, 20480) if x > need])
+    sc["final"] = final
+    sc["ka_c"], sc["tt_c"] = ka_c, tt_c
+    if kind == "idle-cut":
+        idle = rng.choice([3, 10, 40, 150]) * max(ka_c, ka_s)
+        idle = min(idle, 60000)
+        cut = 400 + idle + rng.randint(0, max(ka_c, ka_s))
+        mode = rng.choice(["both", "both", "c>s", "s>c"])
+        sc["cuts"] = [(mode, cut, 10 ** 9)]
+        sc["cut"], sc["cut_mode"] = cut, mode
+        sc["duration"] = cut + max(ct, 5120) + 5120 + 6 * max(tau_c, tau_s) + 600
+    elif kind == "unreachable":
+        sc["cuts"] = [("c>s", 0, 10 ** 9)]
+        sc["duration"] = tt_c + 8 * tau_c + 300
+    else:   # half-open: the hello gets through, nothing after it
+        sc["cuts"] = [("c>s", tau_c + 1, 10 ** 9), ("s>c", 0, 10 ** 9)]
+        sc["duration"] = max(tt_c, sc["tt_s"]) + 8 * max(tau_c, tau_s) + 400
+    return sc
+
+
+def monitor_world(ctx, w):
+    sc = w.sc
+    rb = w.rb
+    replay = {"scenario": {k: v for k, v in sc.items()}, "trace": w.trace[:40]}
+
+    def fail(kind, what, **extra):
+        ctx.failure(kind, what, dict(replay, **extra))
+    for kind, what in w.problems:
+        fail(kind, what)
+        return
+    ticks = w.client_ticks
+    if not ticks:
+        fail("world-did-not-run", "no client update was executed")
+        return
+    tc = w.t_connect
+    connects = [e for e in w.srv_events if e[1] == "connect"]
+    disconnects = [e for e in w.srv_events if e[1] == "disconnect"]
+    spacing_c = max([y[0] - x[0] for x, y in zip(ticks, ticks[1:])] or [0])
+    spacing_s = max([y - x for x, y in zip(w.sweeps, w.sweeps[1:])] or [0])
+    if sc["kind"] == "idle-cut":
+        cut = w.t0 + sc["cut"]
+        t_up = next((t for (t, st, lr) in ticks if st == 2), None)
+        if t_up is None or not connects:
+            fail("handshake-did-not-complete", "client status never CONNECTED / server never promoted (client %s, server events %d)" %
+                 (t_up, len(connects)))
+            return
+        # no false time-out while traffic flows
+        bad = [(t, st) for (t, st, lr) in ticks if t_up <= t < cut and st != 2]
+        if bad:
+            fail("client-dropped-while-traffic-flows", "client status %d at %d, link cut only at %d" % (bad[0][1], bad[0][0], cut))
+            return
+        early = [e for e in disconnects if e[0] < cut]
+        if early:
+            fail("server-timeout-while-traffic-flows", "server disconnected the client at %d, link cut only at %d" % (early[0][0], cut))
+            return
+        # cadence per direction while both ends are in service
+        sconn = connects[0][2]
+        si_s = rb.r(sconn.send_interval) + 1
+        si_c = sc["si_c"] or 18
+        ka_hist = [(tc, sc["final"]["ka"])] if not w.ka_changes else None
+        t_drop = next((t for (t, st, lr) in ticks if t >= cut and st == 5), None)
+        t_disc = disconnects[0][0] if disconnects else None
+        for side, times, start, stop, ka, si, spacing in (
+                ("client", w.sent["c"], t_up, t_drop if t_drop is not None else ticks[-1][0], None, si_c, spacing_c),
+                ("server", w.sent["s"], connects[0][0], t_disc if t_disc is not None else w.sweeps[-1], sc["ka_s"], si_s, spacing_s)):
+            seq = [t for t in times if start <= t <= stop]
+            for x, y in zip(seq, seq[1:] + [stop]):
+                if side == "client":
+                    # the keep-alive interval in force: the last value set at or before x (a change in (x, y] may stretch this one gap)
+                    vals = [v for (tt_, v) in [(tc, w.ka_at_connect)] + w.ka_changes if tt_ <= y]
+                    ka = max(vals[-2:]) if len(vals) > 1 and w.ka_changes and x < w.ka_changes[-1][0] else vals[-1]
+                bound = max(ka, si) + spacing
+                if y - x > bound:
+                    fail("keepalive-gap", "%s: %d ticks without a datagram (keep-alive %d, send interval %d, update spacing <= %d)" %
+                         (side, y - x, ka, si, spacing), frm=x, to=y)
+                    return
+            ctx.count("c:cadence checked %s" % side)
+        # detection
+        if sc["cut_mode"] in ("both", "s>c"):
+            # the peer's last datagram reached the socket at last_arrival; the update at or after that instant reads it
+            heard = next((t for (t, st, l) in ticks if t >= w.last_arrival), None)
+            first = next((t for (t, st, l) in ticks if heard is not None and t > heard + 5120), None)
+            if t_drop is None or t_drop != first:
+                # datagrams still unread after the update that should have read the last one
+                waiting = max([w.backlog[i] for i, (t, st, l) in enumerate(ticks) if heard is not None and t >= heard] or [0])
+                if waiting > 0 and (t_drop is None or (first is not None and t_drop > first)):
+                    fail("client-drop-delayed-by-receive-backlog",
+                         "the server's last datagram reached the client's socket at %d; 5 s later the client is not DROPPED (reported at %s, due at "
+                         "%s): UdpClient.update reads one datagram per call and %d unread datagrams were waiting when the link died (server "
+                         "keep-alive %d ticks, client update every %d)" % (w.last_arrival, t_drop, first, waiting, sc["ka_s"], sc["tau_c"]))
+                    return
+                fail("client-drop-time", "last datagram from the server arrived at %d (read at %s); DROPPED reported at %s, first update later "
+                     "than 5 s after it at %s" % (w.last_arrival, heard, t_drop, first))
+                return
+            ctx.count("c:client DROPPED at the first update after 5 s")
+        if sc["cut_mode"] in ("both", "c>s") or t_drop is not None:
+            lr = rb.r(sconn.last_recv_time)
+            first = next((t for t in w.sweeps if t >= lr + sc["ct"]), None)
+            if t_disc is None or t_disc != first or len(disconnects) != 1:
+                fail("server-drop-time", "server accepted the last datagram at %d, connection_timeout %d: disconnect at %s (%d calls), first sweep "
+                     "at or after the deadline at %s" % (lr, sc["ct"], t_disc, len(disconnects), first))
+                return
+            ctx.count("c:server disconnect at the first sweep at/after connection_timeout")
+    else:
+        # unanswered connect: DISCONNECTED at the first update later than the configured time-out after the hello, callback once with False
+        tt = sc["final"].get("tt", rb.r(2.0))
+        first = next((t for (t, st, lr) in ticks if t - tc > tt), None)
+        for (t, st, lr) in ticks:
+            want = 1 if (first is None or t < first) else 4
+            if st != want:
+                fail("connect-timeout-missed" if want == 4 else "connect-timeout-early",
+                     "connect at %d, time-out %d (callback %s): status %d at %d (+%d)" % (tc, tt, "given" if sc["ccb"] else "none", st, t, t - tc))
+                return
+        want_cb = [(first, False)] if (sc["ccb"] and first is not None) else []
+        if w.ccb != want_cb:
+            fail("connect-callback-count", "connect callback calls %s, expected %s" % (w.ccb, want_cb))
+            return
+        if connects or disconnects:
+            fail("handler-event-without-connection", "server handler events %s for a connection that never completed" %
+                 [(e[0], e[1]) for e in w.srv_events])
+            return
+        ctx.count("c:connect time-out ccb=%d (%s)" % (sc["ccb"], sc["kind"]))
+        if sc["kind"] == "half-open":
+            # the server created a half-open connection and removes it at the first sweep at/after temp_connection_timeout
+            rm = getattr(w, "temp_removed", None)
+            seen = getattr(w, "temp_seen", None)
+            if seen is not None:
+                first_s = next((t for t in w.sweeps if t >= seen[1] + sc["tt_s"]), None)
+                if rm != first_s:
+                    fail("temp-connection-drop-time", "half-open connection accepted its hello at %d, temp time-out %d: removed at %s, first sweep "
+                         "at/after the deadline %s" % (seen[1], sc["tt_s"], rm, first_s))
+                    return
+                ctx.count("c:half-open connection removed at temp_connection_timeout")
+
+
+def run_worlds(ctx, rb, n):
+    rng = ctx.rng
+    for i in range(n):
+        kind = ["idle-cut", "idle-cut", "unreachable", "half-open"][i % 4]
+        sc = draw_world(rng, kind)
+        w = World(rb, rng, sc)
+        # what connect copies: recorded for the cadence bound
+        w.ka_at_connect = None
+        orig_connect = w.connect
+
+        def connect(t, _w=w, _o=orig_connect):
+            _o(t)
+            if _w.client.conn is not None:
+                _w.ka_at_connect = rb.r(_w.client.conn.send_keep_alive_interval)
+        w.connect = connect
+        if kind == "half-open":
+            # observe the temp pool at every sweep
+            orig_adv = w.advance
+
+            def adv(_w=w, _o=orig_adv):
+                tc_ = _w.ctxt.temp_connections.get(CLIENT_ADDR)
+                now = _w.real.now
+                if tc_ is not None and getattr(_w, "temp_seen", None) is None:
+                    _w.temp_seen = (now, rb.r(tc_.last_recv_time))
+                if tc_ is None and getattr(_w, "temp_seen", None) is not None and getattr(_w, "temp_removed", None) is None:
+                    _w.temp_removed = now
+                _o()
+            w.advance = adv
+        try:
+            w.run()
+        except TimeoutError:
+            ctx.failure("world-hang", "real client/server did not finish", {"scenario": sc})
+            return
+        monitor_world(ctx, w)
+        ctx.count("c:world " + kind)
+        if ctx.failures:
+            return
+        ctx.notes["c_client_updates"] = ctx.notes.get("c_client_updates", 0) + len(w.client_ticks)
+        ctx.notes["c_server_iterations"] = ctx.notes.get("c_server_iterations", 0) + len(w.sweeps)
+        ctx.notes["c_datagrams"] = ctx.notes.get("c_datagrams", 0) + len(w.sent["c"]) + len(w.sent["s"])
+        if kind == "idle-cut":
+            # the link hypothesis of C12_idle_pair_stays_up on the real code: nothing a peer sent over the perfect link was rejected
+            srv = [e[2] for e in w.srv_events if e[1] == "connect"]
+            rej = (w.client.conn.stats.dropped if w.client.conn else 0) + sum(c.stats.dropped for c in srv)
+            ctx.notes["c_genuine_datagrams_rejected"] = ctx.notes.get("c_genuine_datagrams_rejected", 0) + rej
 
 
 # ============================================================================================ run
@@ -860,7 +1345,7 @@ def run(ctx):
     rng = ctx.rng
     # ---------------------------------------------------------------- (a)
     cases, monitors = [], []
-    n_cut = ctx.scale(30, 400)
+    n_cut = ctx.scale(120, 1500)
     for i in range(n_cut):
         cfg = draw_cfg(rng)
         mode = rng.choice(["both", "both", "a>", "b>"])
@@ -870,7 +1355,7 @@ def run(ctx):
         cases.append(lines)
         monitors.append((lines, obs, mode))
         ctx.count("a:cut-mode " + mode)
-    for i in range(ctx.scale(1, 6)):
+    for i in range(ctx.scale(2, 6)):
         # long idle: thousands of keep-alive periods
         cfg = draw_cfg(rng, long_idle=True)
         periods = ctx.scale(1500, 6000)
@@ -879,7 +1364,7 @@ def run(ctx):
         monitors.append((lines, obs, "both"))
         ctx.count("a:long-idle keep-alive periods", periods)
     conn_cases = []
-    for i in range(ctx.scale(40, 500)):
+    for i in range(ctx.scale(150, 2000)):
         tt = rng.choice([256, 257, 512, 1000, 2048, 5120, 20480])
         lines, rec = gen_connect_timeout(real, rng, "u%d" % i, tt, i % 2, rng.randint(8, 110) if tt < 5000 else rng.randint(60, 400), rng.random() < 0.5)
         cases.append(lines)
@@ -901,8 +1386,8 @@ def run(ctx):
 
     # ---------------------------------------------------------------- (b)
     rb = RealB(real2)
-    bcases = gen_settings_cases(rng, rb, ctx.scale(40, 600)) + gen_ctxt_cases(rng, rb, ctx.scale(25, 300)) + \
-        gen_state_cases(rng, ctx.scale(120, 2500))
+    bcases = gen_settings_cases(rng, rb, ctx.scale(150, 2000)) + gen_ctxt_cases(rng, rb, ctx.scale(80, 1000)) + \
+        gen_state_cases(rng, ctx.scale(600, 8000)) + gen_rx_cases(real2, rng, ctx.scale(300, 4000))
 
     def impl_fn(case):
         return rb.run_case(case)
@@ -936,3 +1421,20 @@ def run(ctx):
                                 {"case": case, "at": idx})
                     break
     ctx.notes["b_cases"] = len(bcases)
+    # monitor: update() leaves nothing unread unless an exception escaped or the connection is DROPPED
+    for case in bcases:
+        if not case[0].split()[1].startswith("d"):
+            continue
+        outs = rb.run_case(case)
+        for idx, o in enumerate(outs):
+            if o.startswith("st=") and " unread=" in o:
+                kvs = dict(x.split("=", 1) for x in o.split()[:2])
+                if int(kvs["unread"]) > 0 and kvs["st"] != "5" and "err:" not in o:
+                    ctx.failure("client-drop-delayed-by-receive-backlog", "UdpClient.update returned normally and left %s datagrams unread" %
+                                kvs["unread"], {"case": case, "at": 2 * (idx // 2) + 2})
+                    break
+                ctx.count("b:update with %s waiting datagrams" % ("0" if " - " in o + " " and "unread=0 -" in o else ">=1"))
+    if ctx.failures:
+        return
+    # ---------------------------------------------------------------- (c)
+    run_worlds(ctx, rb, ctx.scale(200, 3000))
